@@ -135,6 +135,12 @@ def gen_case(rnd):
             lines.append(f'    {kw} {v}')
         if posts and not delegating: items.append({'kind': 'post', 'row': len(lines), 'value': v, 'validators': posts})
     quiet = []
+    if not is_gen and not delegating and not is_async and rnd.random() < .06:
+        # a lambda that would yield is another scope: g is no generator and its returns are validated as usual
+        first = next(i for i, l in enumerate(lines) if l.startswith('def g(')) + 1
+        lines.insert(first, '    unused = lambda: (yield)')
+        for it in items:
+            if it['row'] > first: it['row'] += 1
     if delegating:
         # every `return <literal>` written above is a quiet row now; the delegation goes first in the body
         first = next(i for i, l in enumerate(lines) if l.startswith(('def g(', 'async def g('))) + 1
